@@ -278,6 +278,42 @@ def run(ck):
         if not oob: r62.instance(name, ok=True, detail={'terminator': hex(term), 'configurations': cfg})
         for w, msg in oob[:2]:
             r62.instance(name, ok=False, wclass=('unbounded-integer' if msg.startswith('integer variable') else 'out-of-range-read'), witness=w, what=f'{name}: {msg} on input {w!r} (byte after the range = {term:#x})')
+    # ---- thorough tier: the same exploration for the scanners that change under the documented build options
+    if ck.tier == 'thorough':
+        from rules.c17 import combos, vname
+        from rules.c03 import machine_6531
+        from rules.c04 import scan_machine, domain_alphabet as _dalpha
+        rv = ck.rule('R6.2s[options]', 'thorough tier: R6.2s again for is_6531_local and is_ascii_domain as compiled under every combination of RFC6531_FOLLOW_RFC5322 / RFC6531_FOLLOW_RFC20 / LABELS_ALLOW_UNDERSCORE', 14)
+        vjobs = []; vmeta = []
+        for opts in combos():
+            if not opts: continue
+            vn = vname(opts)
+            vus = [u for u in unitdb.units(opts, vn) if u.rel in ('src/is_6531_local.c', 'src/is_ascii_domain.c')]
+            vt = {k.split(':')[-1]: t for k, t in unitdb.load_asts(vus).items()}
+            def vjob(name, mk, symbols, term):
+                def task():
+                    oob = []
+                    m = mk(term)
+                    def on_oob(mach, w, msg):
+                        oob.append((scanex.show([x for x in w if x != END]), msg))
+                        if len(oob) >= 3: raise scanex.Stop()
+                    ex = scanex.Explorer([m], symbols, term, on_oob=on_oob)
+                    try: ex.run(lambda r, w: None)
+                    except scanex.Stop: pass
+                    return ex.configs, ex.transitions, oob[:5], getattr(m, 'overruns', 0)
+                vjobs.append(task); vmeta.append((f'{name}[{vn}]', term))
+            t6 = vt['src/is_6531_local.c']
+            sy, _, _ = lp.alphabet([t6.fn('is_6531_local')], utf8=True)
+            for term in (0x40, 0x00): vjob('src/is_6531_local.c:is_6531_local', (lambda t6: (lambda t: machine_6531(t6, t)))(t6), sy, term)
+            td = vt['src/is_ascii_domain.c']
+            rp, _, _ = _dalpha(td)
+            for term in (0x00, 0x2e): vjob('src/is_ascii_domain.c:is_ascii_domain(scan)', (lambda td: (lambda t: scan_machine(td, t)))(td), rp, term)
+        vres = forkmap.forkmap(vjobs)
+        for (name, term), (cfg, tr, oob, overruns) in zip(vmeta, vres):
+            ck.mc(cfg, tr)
+            if not oob: rv.instance(name, ok=True, detail={'terminator': hex(term), 'configurations': cfg})
+            for w, msg in oob[:2]:
+                rv.instance(name, ok=False, wclass=('unbounded-integer' if msg.startswith('integer variable') else 'out-of-range-read'), witness=w, what=f'{name}: {msg} on input {w!r} (byte after the range = {term:#x})')
     # prologue of is_ascii_domain on short strings and length cells: reads stay inside
     from rules.c04 import domain_alphabet
     import itertools
